@@ -309,6 +309,14 @@ def handle (d : DState) (line : String) : DState × String :=
               | .other t => s!"other:{t}"
             (d, "ok " ++ " ".intercalate (fs.map (fun f => s!"{f.1}={showC f.2}")))
       | _, _, _, _, _, _, _ => bad
+    | "PAGES" =>
+      match (kv args "base").bind String.toNat?, (kv args "offset").bind String.toNat?, (kv args "ncols").bind String.toNat?,
+            (kv args "itemsize").bind String.toNat?, (kv args "P").bind String.toNat?, (kv args "nrows").bind String.toNat? with
+      | some base, some offset, some ncols, some itemsize, some P, some nrows =>
+        let p : BB.Pages.Params := { base := base, offset := offset, ncols := ncols, itemsize := itemsize, P := P, nrows := nrows }
+        let rs := BB.Pages.releases p
+        (d, s!"can={p.canRelease} " ++ ",".intercalate (rs.map (fun r => toString r.addr ++ ":" ++ toString r.len ++ ":" ++ toString r.afterRow)))
+      | _, _, _, _, _, _ => bad
     | "MINSAFE" =>
       match (kv args "n").bind String.toNat? with
       | some n => (d, match minSafe? n with | some w => w.name | none => "err:ValueError")
